@@ -111,6 +111,9 @@ pub struct Verdict {
     pub excluded: Option<String>,
     /// optional distinctness key override (default: hash of the case's JSON)
     pub key: Option<u64>,
+    /// sub-checks of this case that were not evaluated because a listed finding covers exactly
+    /// that (input class, sub-check) pair; the rest of the oracle still ran
+    pub kf_skips: Vec<String>,
 }
 
 impl Verdict {
@@ -151,6 +154,10 @@ impl Verdict {
     }
     pub fn is_fail(&self) -> bool {
         self.fail.is_some()
+    }
+    pub fn kf_skip(mut self, id: &str) -> Self {
+        self.kf_skips.push(id.to_string());
+        self
     }
 }
 
@@ -342,6 +349,9 @@ pub fn explore<C, S>(
                                 for c in &v.classes {
                                     *st.classes.entry((*c).to_string()).or_default() += 1;
                                 }
+                                for k in &v.kf_skips {
+                                    *st.excluded.entry(format!("{k} (sub-check only)")).or_default() += 1;
+                                }
                                 if v.nontrivial {
                                     let (k, len) = case_key(&case);
                                     let k = v.key.unwrap_or(k);
@@ -475,6 +485,9 @@ pub fn enumerate<C>(
                         st.evaluations += 1;
                         for c in &v.classes {
                             *st.classes.entry((*c).to_string()).or_default() += 1;
+                        }
+                        for k in &v.kf_skips {
+                            *st.excluded.entry(format!("{k} (sub-check only)")).or_default() += 1;
                         }
                         if v.nontrivial {
                             let (k, len) = case_key(case);
